@@ -3,9 +3,11 @@
   object is a finite map from keys to values; a request history is answered by lookups.
   `judge` checks a list of implementation answers against this abstract data model.
 
-  Recorded finding (class `msgpack-array-left-partly-read`): an array scope that is closed before
-  all of its elements were read is not skipped to its end, so everything read afterwards from the
-  enclosing scopes is misplaced. The oracle stops judging at such a close.
+  Closing a scope — object or array, wherever its cursor stands — passes over everything in it that
+  was not read, so what follows it in the enclosing scope is answered from the right place. (Before
+  the repair `~CMsgPackReadArrayScope` skips the unread elements, an array scope left partly read was
+  the recorded class `msgpack-array-left-partly-read`; the oracle now demands the data-model answers
+  after such a close as after any other.)
 -/
 import BSVerif.Scope.Model
 
@@ -82,10 +84,41 @@ def expectScalar (mis : Mis) (ty : Ty) (v : Val) : Ans :=
     | .other => if t ≠ .nil ∧ mis = .throwError then .err .mismatched else .no
   | _ => if mis = .throwError then .err .mismatched else .no
 
+/-- number of complete top-level values at the front of a (possibly truncated) token list -/
+def completeTop (ts : List Tok) : Nat :=
+  let rec go : Nat → List Tok → Nat → Nat
+    | 0, _, n => n
+    | fuel + 1, ts, n =>
+      if ts.isEmpty then n
+      else match parseVals ts.length 1 ts with
+        | some ([_], rest) => go fuel rest (n + 1)
+        | _ => n
+  go (ts.length + 1) ts 0
+
+/-- A TRUNCATED document (the token list ends inside a container): the data model has no value for the incomplete
+    top-level container, so the only demand is C20's — once a history has asked for that container (read it, or opened
+    and, as every history does, closed it), the session must not end normally: either a request raises an exception, or
+    the skip loop of a scope destructor notices the missing part and `Finalize()` reports it. Histories that never
+    reach the incomplete value are not judged. -/
+def judgeTruncated (doc : List Tok) (reqs : List Req) (answers : List Ans) : String :=
+  let top := completeTop doc
+  let rec go : List Req → List Ans → Nat → Nat → Bool → Bool
+    | q :: qs, a :: as, depth, rootIdx, touched =>
+      let isRootReq := depth == 0 && (match q with | .next _ | .openArr | .openObj => true | _ => false)
+      let touched' := touched || (isRootReq && rootIdx == top)
+      let rootIdx' := if isRootReq then rootIdx + 1 else rootIdx
+      let depth' := match a with | .opened _ => depth + 1 | .closed => depth - 1 | _ => depth
+      go qs as depth' rootIdx' touched'
+    | _, _, _, _, touched => touched
+  let endsInError := match answers.getLast? with | some (.err _) => true | _ => false
+  if go reqs answers 0 0 false then
+    (if endsInError then "ok" else "bad:truncated_document_loaded_without_an_exception")
+  else "nospec"
+
 /-- returns `ok`, `bad:<why>` or `known:<class>` -/
 def judge (mis : Mis) (doc : List Tok) (reqs : List Req) (answers : List Ans) : String :=
   match parseDoc doc with
-  | none => "nospec"
+  | none => judgeTruncated doc reqs answers
   | some vals =>
     let rec go : List View → List Req → List Ans → Nat → String
       | _, [], [], _ => "ok"
@@ -130,13 +163,7 @@ def judge (mis : Mis) (doc : List Tok) (reqs : List Req) (answers : List Ans) : 
           | some (.sc .nil) => expect .no (.arr items (idx + 1) :: tl)
           | some _ => expect (if mis = .throwError then .err .mismatched else .no) (.arr items (idx + 1) :: tl)
         | .arr items idx :: _, .isEnd => expect (.flag (idx = items.length)) views
-        | .arr items idx :: tl, .close =>
-          let parentContinues : Bool := match tl with
-            | [.root _ _] => qs.any fun r => r != .close
-            | _ => true
-          if decide (idx < items.length) && parentContinues then
-            (if a = .closed then "known:msgpack-array-left-partly-read" else bad "close")
-          else expect .closed tl
+        | .arr _ _ :: tl, .close => expect .closed tl
         | .obj es :: tl, .get k ty =>
           match lookup es k with
           | some v => expect (expectScalar mis ty v) views
